@@ -324,6 +324,13 @@ func (e *Env) ident(name string) TVal {
 	}
 	if _, ok := e.c.ghosts[name]; ok && e.g != nil {
 		gd := e.c.ghosts[name]
+		if gd.File != nil {
+			saved := e.c.curFile
+			e.c.curFile = gd.File
+			ty := e.c.specSort(gd.Sort, e.c.typesPkgs[gd.File.PkgPath])
+			e.c.curFile = saved
+			return TVal{term: e.g.ghost(e.hst, name), ty: ty}
+		}
 		return TVal{term: e.g.ghost(e.hst, name), ty: e.c.specSort(gd.Sort, e.pkg)}
 	}
 	if sf, ok := e.c.specs[name]; ok && len(sf.Params) == 0 {
